@@ -59,6 +59,12 @@ class Model:
                 self.content[s] = alpha[0]
                 self.owner[s] = "user"
             self.ver[s] = 0
+        for name, text in getattr(world, "symlinks", {}).items():
+            # a user-made link to a source that exists: a user-owned file with that source's content
+            if text in world.sources and text not in world.absent and name not in world.sources:
+                self.content[name] = world.sources[text][0]
+                self.owner[name] = "user"
+                self.ver[name] = 0
         for df in world.rules:
             self.variant[df] = None if df in dofiles_absent else 0
             self.ver[df] = 0
